@@ -15,6 +15,7 @@ struct C03Plan
   int nops;
   C03Op ops[12];
   int ctrl_in_loop;  // 1: start/stop are issued from the body of a second AsyncLoop
+  int busy_workers;  // 1: every tasking thread is occupied by long-running scheduled work from before the loop is constructed until after it is destroyed
 };
 enum {
   C03_BODY_ENTER = 1,
@@ -38,5 +39,8 @@ void c03_body_exit();
 void c03_expect_progress();
 int c03_ctrl_next();          // next script position for the controlling loop (-1: script finished)
 void c03_ctrl_wait_done();    // thread 0 waits until the controlling loop has run the whole script
+void c03_blocker();           // body of the long-running work
+void c03_wait_blockers(int n);
+void c03_release_blockers();
 void c03_run();
 }
